@@ -137,6 +137,8 @@ bool flagSet(const std::string &f) { return g_flags.count(f) != 0; }
 // ------------------------------------------------------------------------------------------ harness registry
 static std::map<std::string, HarnessFn> &harnesses() { static std::map<std::string, HarnessFn> m; return m; }
 void registerHarness(const char *name, HarnessFn fn) { harnesses()[name] = fn; }
+static std::map<std::string, IdleHookFn> &idleHooks() { static std::map<std::string, IdleHookFn> m; return m; }
+void registerIdleHook(const char *name, IdleHookFn fn) { idleHooks()[name] = fn; }
 
 } // namespace vsim
 
@@ -662,7 +664,7 @@ int __wrap_epoll_wait(int epfd, struct epoll_event *evs, int maxev, int timeoutM
     if (!g_firstIdleLogged) {
         g_firstIdleLogged = true;
         hist("LIFE\tfirst_idle");
-        if (g_scn.mode != "P") {
+        if (g_scn.mode != "P" && !idleHooks().count(g_scn.mode)) {
             auto it = harnesses().find(g_scn.mode);
             if (it == harnesses().end()) { hist("ERROR\tno harness %s", g_scn.mode.c_str()); endRun("no-harness", 3); }
             int rc = it->second(g_scn.modeArgs);
@@ -670,6 +672,17 @@ int __wrap_epoll_wait(int epfd, struct epoll_event *evs, int maxev, int timeoutM
         }
     }
     if (!flagSet("ready") && verif_store_rebuilding() == 0) { hist("LIFE\tready"); setFlag("ready"); }
+    if (g_scn.mode != "P") {
+        auto ih = idleHooks().find(g_scn.mode);
+        if (ih != idleHooks().end()) {
+            checkLimits();
+            uint64_t adv = 0;
+            int rc = ih->second(g_scn.modeArgs, &adv);
+            if (rc >= 0) endRun("harness-done", rc);
+            g_now += adv;
+            return 0;
+        }
+    }
     const uint64_t deadline = timeoutMs < 0 ? UINT64_MAX : g_now + (uint64_t)timeoutMs * 1000ULL;
     for (;;) {
         checkLimits();
